@@ -38,8 +38,12 @@ def n_form(rng, N, n_from, allow_none=True):
         forms += ["None", "None"]
     c = rng.choice(forms)
     if c == "int":
+        if rng.random() < 0.12:
+            return {"$npint": N, "dtype": rng.choice(["int64", "int32", "intp"])}  # numpy integer scalar
         return N
     if c == "float":
+        if rng.random() < 0.1:
+            return {"$npfloat": f, "dtype": "float64"}
         return f
     if c == "one":
         return 1.0
@@ -167,9 +171,18 @@ def gen_c01(rng, idx, tier, faults):
         if rng.random() < 0.4 and not p.get("full"):
             p.update(gen_threshold(rng, fam))
         name = f"e{o}"
+        xo, yo = xn, yn
+        if rng.random() < 0.3:
+            # other data of the same shape, for cold refits of the same object
+            xo = f"Z{o}"
+            heap[xo] = dict(gen_X(rng, D.KINDS, xs["shape"][0], xs["shape"][0], xs["shape"][1], xs["shape"][1]))
+            if yn:
+                yo = f"w{o}"
+                heap[yo] = gen_y(rng, xs["shape"][0])
         seq = [{"op": "NEW", "obj": name, "cls": cls, "params": p}]
         mk_env = (lambda: env_fault(rng, fam, p)) if faults else (lambda: quiet_env(rng, fam))
         seq.append({"op": "FIT", "obj": name, "X": xn, "y": yn, "warm": False, "env": mk_env()})
+        curX, curY = xn, yn
         cur = N
         for _ in range(rng.choice([0, 0, 1, 1, 2, 3])):
             r = rng.random()
@@ -184,7 +197,9 @@ def gen_c01(rng, idx, tier, faults):
                         newp["initialize"] = rng.randrange(n_from)
                     seq.append({"op": "SET", "obj": name, "params": newp})
                     cur = None
-                seq.append({"op": "FIT", "obj": name, "X": xn, "y": yn, "warm": False, "env": mk_env()})
+                if rng.random() < 0.5:
+                    curX, curY = (xo, yo) if curX == xn else (xn, yn)
+                seq.append({"op": "FIT", "obj": name, "X": curX, "y": curY, "warm": False, "env": mk_env()})
                 if cur is None:
                     from .refmodels import resolve_n_to_select
 
@@ -194,7 +209,7 @@ def gen_c01(rng, idx, tier, faults):
                 break
             new = rng.randint(cur + 1, n_from)
             seq.append({"op": "SET", "obj": name, "params": {"n_to_select": n_form(rng, new, n_from)}})
-            seq.append({"op": "FIT", "obj": name, "X": xn, "y": yn, "warm": True, "env": mk_env()})
+            seq.append({"op": "FIT", "obj": name, "X": curX, "y": curY, "warm": True, "env": mk_env()})
             cur = new
         plans.append(seq)
     # interleave the objects' sequences, keeping each object's order
